@@ -372,6 +372,37 @@ def gen(seed, run, tier='quick'):
         if decl.dim_key(dim_c) in model.dims or \
                 decl.dim_key(dim_x) in model.dims:
             ok = False
+        tower = rng.random() < 0.4
+        if tower:
+            # ... or a tower over that type: Q2 = Q**2 (unit a**2),
+            # Q3 = Q*Q2 (unit b.a**2), Q4 = Q*Q3 (unit b.b.a**2): three
+            # and more units of one reference-less type in one product, one
+            # of them repeated
+            dims_ = [decl.dim_add({}, model.types[tn_]['dim'], e_)
+                     for e_ in (2, 3, 4)]
+            if any(decl.dim_key(d_) in model.dims for d_ in dims_):
+                ok = False
+            prev_t, prev_u = None, None
+            for lvl in (2, 3, 4):
+                if not ok:
+                    break
+                n = model.fresh()
+                tname = f'D{n}'
+                items_ = [[tn_, 2]] if lvl == 2 else [[tn_, 1], [prev_t, 1]]
+                add({'a': 'derived_type', 'name': tname, 'items': items_,
+                     'style': 0, 'ref_sym': None, 'auto_ref': False,
+                     'quantum': None, 'expect': 'accept', 'dup_dim': False})
+                n = model.fresh()
+                uname = f'v{n}'
+                add({'a': 'derive_unit', 'type': tname,
+                     'units': [ua] if lvl == 2 else [ub, prev_u],
+                     'sym': uname, 'expect': 'accept'})
+                if lvl >= 3:
+                    scenario_probes += [('uu*', prev_u, ub),
+                                        ('uu*', ub, prev_u),
+                                        ('qq*', prev_u, ub)]
+                prev_t, prev_u = tname, uname
+            ok = False      # (the nesting variant below is the alternative)
         if ok:
             n = model.fresh()
             cn = f'D{n}'
